@@ -1,6 +1,8 @@
 (* Conversions between OCaml values and the extracted Coq datatypes, and the
    line format of case files. Parsing and printing only. *)
 open Lospan_model
+type cstring = Lospan_model.string
+type string = Stdlib.String.t
 
 let rec pos_of_int n =
   if n <= 1 then XH else if n land 1 = 0 then XO (pos_of_int (n lsr 1)) else XI (pos_of_int (n lsr 1))
@@ -75,3 +77,15 @@ let getbool g k = bool_of_string_ (g k)
 let split_list (s : string) : string list =  (* "[a,b,c]" or "a,b,c" *)
   let s = if String.length s >= 2 && s.[0] = '[' then String.sub s 1 (String.length s - 2) else s in
   if s = "" then [] else String.split_on_char ',' s
+
+(* OCaml string <-> Coq string *)
+let ascii_of_char c =
+  let n = Char.code c in
+  let b i = (n lsr i) land 1 = 1 in
+  Ascii (b 0, b 1, b 2, b 3, b 4, b 5, b 6, b 7)
+let coq_string_of (s : string) : cstring =
+  let rec go i = if i >= String.length s then EmptyString else String (ascii_of_char s.[i], go (i + 1)) in go 0
+let eui_dashed (v : n) : string =
+  let h = hex_of_n v in
+  let h = String.make (max 0 (16 - String.length h)) '0' ^ h in
+  String.concat "-" (List.init 8 (fun i -> String.sub h (2 * i) 2))
